@@ -4,5 +4,4 @@ func stub(name string) string {
 	return "-- GENERATED placeholder (" + name + ")\nimport Rpcx.Basic\n"
 }
 
-func genPreds() string   { return stub("Preds") }
 func genSites() string   { return stub("Sites") }
